@@ -24,7 +24,7 @@ func init() {
 		MinNontriv:  40,
 		Cases: func(tier string) int {
 			if tier == "thorough" {
-				return 12000
+				return 36000
 			}
 			return 1200
 		},
